@@ -149,6 +149,21 @@ def C07(ctx):
     # "resume": a machine that ran out of gas is untouched by the refused op, so exec can be called
     # again and ends where the uninterrupted run ends (growth beyond the listed property)
     _vm_program_check(ctx, ["gas", "resume"], profiles=("dev", "release"))
+    # bonus: TLAPS proof that the charge test keeps gas = sum of executed costs <= limit <= GasMax and
+    # that a refused charge changes nothing, for ANY costs / limit / number of ops (the models check a
+    # program library x limits 0..24); a failure of the proof tool is reported in the evidence only
+    import re
+    import shutil
+    pd = os.path.join(ctx.work, "proof")
+    os.makedirs(pd, exist_ok=True)
+    shutil.copy(os.path.join(vrun.SPEC, "proofs", "GasProof.tla"), pd)
+    rc, out = vrun.sh(["tlapm", "--threads", "8", "GasProof.tla"], timeout=600, cwd=pd)
+    m = re.search(r"All (\d+) obligations? proved", out)
+    ctx.cov["tlaps_proof"] = ({"theorem": "GasProof!Safety: Spec => [](gas = spent /\\ gas <= Limit /\\ gas <= GasMax); "
+                                          "GasProof!Refusal: a refused charge leaves gas and spent unchanged",
+                               "obligations": int(m.group(1)), "discharged": int(m.group(1)),
+                               "checker_cmd": "tlapm --threads 8 spec/proofs/GasProof.tla"}
+                              if m else {"status": "not re-checked in this run", "tail": out[-300:]})
 
 
 def C09(ctx):
